@@ -19,7 +19,10 @@ CHECKS = {
        "and diffing complete event traces (exhaustive DFS over verdict sequences on small inputs, all 7 "
        "strategies + move; random beyond). C01_session_final_is_last_accepted proves the same for a following run() on "
        "a RE-USED Lithium object (any previous world: counters, temp dir, stale last_interesting); the harness runs "
-       "consecutive runs on one Lithium / testcase / strategy object and injects transient write faults.",
+       "consecutive runs on one Lithium / testcase / strategy object and injects transient write faults. "
+       "C01_final_is_last_accepted_test_changes_file (Model/Scribble.v) proves it for tests that CHANGE the testcase file while "
+       "they run; the harness runs such tests (append / truncate / delete / stamp the head), boundary sweeps over part counts and "
+       "the same scenario set in child interpreters under -O, -W error, a non-UTF-8 locale and DEBUG logging.",
   note=TB + "Assumes content(tc0) = bytes on disk (proved as C06 for the loaders); the test sees only file/args/prefix; "
        "SHA-512 collision-freeness (model de-duplicates on content). Strategies without a concrete model drive the "
        "model driver through their recorded proposal list.",
@@ -34,7 +37,9 @@ CHECKS = {
        "(C02_abort_restores_unrestricted_refuted); C02_minimize_like_restores proves it unreachable for minimize and "
        "minimize-collapse-brace (the only shipped strategy that writes the file itself). Correspondence: "
        "aborts with 6 exception classes at every test index of explored runs; real `python -m lithium` children "
-       "killed with SIGKILL; C02_session_abort_restores covers a re-used Lithium object.",
+       "killed with SIGKILL; C02_session_abort_restores covers a re-used Lithium object; scribble_invisible / "
+       "C02_abort_restores_test_changes_file / C02_kill_tempdir_test_changes_file (Model/Scribble.v) cover tests that change the "
+       "testcase file while they run (Lithium never reads it back: same trace, temp dir, counters, status).",
   note=TB + "Durability of already-written temp files under SIGKILL and the atomicity of writes are OS behaviour the model "
        "assumes (partial for the kill half); cleanup() itself raising is outside the property.",
   tech="Coq proof (driver-loop invariant incl. finally/hooks/temp-dir) + trace correspondence with injected exceptions",
